@@ -104,6 +104,8 @@ def run(ctx, w):
     pens(ctx, w, S, R)
     dch_rule(ctx, w, S, R)
     nocontent(ctx, w, S, R, erase_fn)
+    shared.stale_operands(ctx, w, S, R, "X8", ["Ed", "El", "Ech", "Ich", "Dch", "Il", "Dl"])
+    ctx.floor("X8", 10, "cursor reads feeding buffer primitives")
 
 
 def const_false(body, pt):
@@ -271,6 +273,11 @@ def nocontent(ctx, w, S, R, erase_fn):
     E = w.E
     ctx.rule("X7", "the erase primitives never read cell content (erasing cannot depend on what was there)")
     fns = set()
+    if erase_fn is None:
+        for h in w.handler("El"):
+            for cs in E.call_sites(h):
+                if cs.local and S._impl_of(cs.callee) == S.buffer_ty and any(S.is_row_content(p) for p in cs.W):
+                    erase_fn = cs.callee
     if erase_fn:
         fns |= E.reachable_fns([erase_fn])
     for v in ("Ich", "Dch"):
